@@ -6,9 +6,9 @@ package ctlsim
 import (
 	"context"
 
+	"fmt"
 	"github.com/go-logr/logr"
 	"github.com/go-logr/logr/funcr"
-	"fmt"
 	"os"
 	"path/filepath"
 	"strings"
@@ -121,14 +121,14 @@ func (q *AcmeQueue) Take() []string {
 type acmeSigner struct{}
 
 func (acmeSigner) AcmeAccount(endpoint, emails string, termsAgreed bool) {}
-func (acmeSigner) AcmeConfig(expiring time.Duration)                      {}
-func (acmeSigner) HasAccount() bool                                       { return true }
-func (acmeSigner) Notify(item interface{}) error                          { return nil }
+func (acmeSigner) AcmeConfig(expiring time.Duration)                     {}
+func (acmeSigner) HasAccount() bool                                      { return true }
+func (acmeSigner) Notify(item interface{}) error                         { return nil }
 
 type leader struct{ is bool }
 
-func (l *leader) IsLeader() bool          { return l.is }
-func (l *leader) LeaderName() string      { return "other" }
+func (l *leader) IsLeader() bool             { return l.is }
+func (l *leader) LeaderName() string         { return "other" }
 func (l *leader) Run(stopCh <-chan struct{}) {}
 
 // StepInfo describes one reconciliation.
